@@ -355,8 +355,7 @@ class Faces(Family):
             a['orig_faces'][1].update(texinfo=None, hid=None)
             out.append(('dangling_orig_face', a))
             a = copy.deepcopy(w)
-            a[m][1]['orig'] = None
-            a[m][1]['hid'] = None
+            a[m][1]['orig'] = None        # FACEIDS has no "none": the hammer id stays an integer
             self.fix_orig(a)
             out.append(('no_orig_face', a))
         a = copy.deepcopy(w)
@@ -802,8 +801,14 @@ def norm_path(path: list) -> str:
     return '.'.join(str(k) for k in path if not isinstance(k, int) and k != '*')
 
 
+OUT_NAMES = ['output', 'inst_out', 'target', 'input', 'inst_in', 'params', 'delay', 'times', 'comma_sep']
+
+
 def strip_idx(path: str) -> str:
-    return re.sub(r'\[\d+\]', '', path).lstrip('.')
+    """'nodes[0].neg[1].mins[0]' -> 'nodes.mins' (view + innermost field name: coarse and stable)."""
+    path = re.sub(r'outs\[\d+\]\[(\d)\]', lambda m: 'outs.' + OUT_NAMES[int(m.group(1))], path)
+    parts = re.sub(r'\[\d+\]', '', path).lstrip('.').split('.')
+    return parts[0] if len(parts) == 1 else parts[0] + '.' + parts[-1]
 
 
 def make_world(case: dict) -> dict:
@@ -838,7 +843,8 @@ def run_case(acc: core.Acc, case: dict) -> None:
     else:
         field2 = None
     cls = 'vitamin' if layout == 'vitamin' else 'chaos' if layout == 'chaos' else 'std'
-    sig = dict(lump=fam.main if fam.main != 'props' else 'props', field=field, layout_class=cls)
+    sig = dict(lump=fam.main, field=field, layout_class=cls,
+               variant=case.get('tag') or ('overflow' if overflow else 'deviation'))
     if fam.main == 'props':
         sig['prop_version'] = fam.ver
     if case.get('tag') == 'key_escape':
@@ -998,13 +1004,13 @@ def enum_ents(depth: int):
             if depth >= 2:
                 combos += [c for c in itertools.combinations(singles, 2) if c[0][0] != c[1][0]]
             for combo in combos:
+                if comma and any(k == 5 and ',' in v for k, v in combo):
+                    continue   # not representable: with comma separators the lump reader takes exactly four commas for an output
                 w = fam.base(lay, 1)
                 o = w['ents'][1]['outs'][0]
                 o[8] = comma
                 for k, v in combo:
                     o[k] = v
-                if not comma and False:
-                    pass
                 tag = 'output_delay_precision' if any(k == 6 and v in (2.0 ** -10, 1234567.0, G.F32_MAX) for k, v in combo) else 'output'
                 yield {'fam': 'ents', 'layout': lay, 'world': w, 'tag': tag, 'sep': sep,
                        'devs_doc': [list(c) for c in combo] + ['comma' if comma else 'esc']}
@@ -1205,6 +1211,7 @@ def run(ctx: core.Ctx) -> None:
         'representability: angles lie in [0,360); cubemap origins, prop tints and (non-Chaos) node/leaf bounds are integral; VitaminSource leaf '
         'bounds are non-negative; brush-side unknown bevel bits have bit 0 clear; PVS/PAS rows have exactly ceil(clusters/8) bytes.',
         'representability: entity values avoid 0x1B and NUL, and the pre-L4D ambiguity (exactly four commas with two trailing numbers); '
+        'output parameters contain no comma when commas are the separator; '
         'non-ASCII bytes are given as surrogate escapes; texture names in one file differ by more than case; names contain no NUL; '
         'a face with an original face carries an integer hammer id (FACEIDS has no "none").',
         'the empty base files are produced by the independent encoder in checks/bspgen.py; values are compared with ==, so -0.0 equals 0.0.',
